@@ -37,9 +37,13 @@ def run(chk):
             elif i.key.startswith("parent-from"):
                 (chk.ok if i.ok else chk.bad)("R2", i.key, i.file, i.line, **({} if i.ok else {"what": i.what, "expected": i.expected, "found": i.found}))
         fi = repo.fn(EXPAND, "struct_post_init")
-        src = render(fi.body).replace(" ", "")
-        ok = "!ctx.kind.is_from()&&f.get_attrs().has_parameterless_parent_attr(&ctx.struct_attr.ty)" in src and "render_parent(f,ctx)" in src
-        chk.expect("R1", "struct_post_init/guard", ok, EXPAND, fi.line, "bare parents are poured only for non-From conversions, for the parent instruction of this counterpart", found=src[:160])
+        from ..panics import guard_conjuncts
+        sites = [n for n in walk(fi.body) if n["k"] == "Call" and n["func"]["k"] == "Path" and n["func"]["segs"][-1] == "render_parent"]
+        all_c = [guard_conjuncts(fi, s_) for s_ in sites]
+        good = bool(sites) and all(any(c == "!ctx.kind.is_from()" for c in cs) and any(re.search(r"has_parameterless_parent_attr\(&ctx\.struct_attr\.ty\)", c) and not c.startswith("!") for c in cs) for cs in all_c)
+        bad = bool(sites) and any(any(c == "ctx.kind.is_from()" for c in cs) or any(re.fullmatch(r"!.*has_parameterless_parent_attr\(.*", c) for c in cs) for cs in all_c)
+        chk.shape("R1", "struct_post_init/guard", good, bad and not good, EXPAND, fi.line,
+                  what="bare parents are poured only for non-From conversions, for the parent instruction of this counterpart", found=[c[:70] for cs in all_c for c in cs][:6])
     chk.guard("R1", imported)
 
     def r3():
